@@ -1156,6 +1156,10 @@ def _add_contains_views(run, world, mod, c):
             raise AnalysisError("Frame.%s: `%s` is not an int.to_bytes call"
                                 % (name, unparse(e)))
         recv, n, order = tb
+        # locals bound once (the width, the byte count) written out
+        from .. import astq as _aq
+        n = _aq.resolve(f2, n, calls=True)
+        recv = _aq.resolve(f2, recv, calls=True)
         okv = _data_identity(lw, recv) and order == "'big'"
         msg = "%s encodes `%s` with byte order %s" % (name, unparse(recv),
                                                       order)
